@@ -3,6 +3,8 @@
 package route
 
 import (
+	"reflect"
+	"unsafe"
 	"fmt"
 	"math"
 	"strings"
@@ -231,7 +233,7 @@ func c04Sig(kind string, fixed []float64) string {
 
 func TestVerifC04Add(t *testing.T) {
 	L := ev.Begin("C04", "c04-add", "exploration",
-		"every weight vector of 1..N targets over 15 weights (dynamic, tiny, fractions, 1, >1, negative) built with `route add`; oracle: weights = documented rule (independent computation), ring share within (k+1)/10000, one full round-robin cycle through the real picker gives each target exactly its slots, random picker enumerated over every answer of the random source. non-trivial = vector has >=2 targets and at least one fixed weight")
+		"every weight vector of 1..N targets over 15 weights (dynamic, tiny, fractions, 1, >1, negative) built with `route add` and, as route definitions, through NewTableCustom (both must agree); oracle: weights = documented rule (independent computation), ring share within (k+1)/10000, one full round-robin cycle through the real picker gives each target exactly its slots, random picker enumerated over every answer of the random source. non-trivial = vector has >=2 targets and at least one fixed weight")
 	N := 4
 	if ev.Thorough() {
 		N = 5
@@ -264,6 +266,24 @@ func TestVerifC04Add(t *testing.T) {
 			}
 			c04CheckRoute(L, r, fixed, c, len(fixed) <= 3, tbl)
 			L.Outcome(fmt.Sprint(len(r.wTargets)))
+			// the same definitions handed over by the custom backend (a list of route definitions instead of text)
+			var defs []RouteDef
+			for j, w := range fixed {
+				defs = append(defs, RouteDef{Cmd: RouteAddCmd, Service: fmt.Sprintf("s%d", j), Src: "/p", Dst: fmt.Sprintf("http://10.0.0.%d:80/", j+1), Weight: w})
+			}
+			ct, err := NewTableCustom(&defs)
+			if err != nil || len(ct[""]) != 1 || len(ct[""][0].Targets) != len(fixed) {
+				c["err"] = fmt.Sprint(err)
+				L.Violation(c04Sig("custom-backend-table-differs-from-text-table", fixed), c)
+				return
+			}
+			for j, tg := range ct[""][0].Targets {
+				if math.Abs(tg.Weight-r.Targets[j].Weight) > 1e-12 || len(ct[""][0].wTargets) != len(r.wTargets) {
+					c["custom_backend_weights"], c["text_weights"] = c04W(ct[""][0]), c04W(r)
+					L.Violation(c04Sig("custom-backend-table-differs-from-text-table", fixed), c)
+					return
+				}
+			}
 		})
 		if pan {
 			c["panic"], c["stack"] = msg, stack
@@ -407,5 +427,80 @@ func TestVerifC04WeightCmd(t *testing.T) {
 			}
 		}
 	})
+	L.End(true)
+}
+
+// the round-robin position after very many lookups: the cursor is set (through reflection: the field is the
+// implementation's) shortly before the powers of two where a narrower or signed counter would wrap
+func TestVerifC04Cursor(t *testing.T) {
+	L := ev.Begin("C04", "c04-cursor", "exploration",
+		"routes of 3, 5, 6 and 7 unweighted targets and one weighted 3-target route (0.5, dynamic, dynamic), the round-robin cursor set to 2^k - ring length - 1 for k in {8, 15, 16, 31, 32, 33}, then three ring lengths of real picks across the boundary: every window of one ring length (a full cycle) gives each target exactly its slots. 2^63 and 2^64 are left out: a ring whose length is no power of two necessarily jumps when a 64-bit counter wraps, after 10^19 lookups. non-trivial = every window")
+	tables := []string{}
+	for _, n := range []int{3, 5, 6, 7} {
+		var sb strings.Builder
+		for j := 0; j < n; j++ {
+			fmt.Fprintf(&sb, "route add s%d /p http://10.0.0.%d:80/\n", j, j+1)
+		}
+		tables = append(tables, sb.String())
+	}
+	tables = append(tables, "route add s0 /p http://10.0.0.1:80/ weight 0.5\nroute add s1 /p http://10.0.0.2:80/\nroute add s2 /p http://10.0.0.3:80/\n")
+	for _, text := range tables {
+		for _, k := range []uint{8, 15, 16, 31, 32, 33} {
+			tbl, err := vfTable(text)
+			if err != nil {
+				panic("VERIF-INFRA: " + err.Error())
+			}
+			r := tbl[""][0]
+			ring := len(r.wTargets)
+			slots := map[*Target]int{}
+			for _, tg := range r.wTargets {
+				slots[tg]++
+			}
+			start := uint64(1)<<k - uint64(ring) - 1
+			f := reflect.ValueOf(r).Elem().FieldByName("total")
+			if !f.IsValid() || !f.CanAddr() || (f.Kind() != reflect.Uint64 && f.Kind() != reflect.Uint32 && f.Kind() != reflect.Uint && f.Kind() != reflect.Int64 && f.Kind() != reflect.Int32 && f.Kind() != reflect.Int) {
+				L.Cap("the round-robin cursor is no longer an integer field named total: cursor positions cannot be set")
+				L.End(true)
+				return
+			}
+			w := reflect.NewAt(f.Type(), unsafe.Pointer(f.UnsafeAddr())).Elem()
+			if f.CanUint() {
+				w.SetUint(start) // a narrower field takes the low bits, as it would have after that many lookups
+			} else {
+				w.SetInt(int64(start))
+			}
+			var seq []*Target
+			msg, _, pan := ev.Guard(func() {
+				for i := 0; i < 3*ring; i++ {
+					seq = append(seq, rrPicker(r))
+				}
+			})
+			L.Case()
+			L.NontrivialKey(fmt.Sprint(len(r.Targets), ring, k))
+			d := map[string]interface{}{"targets": len(r.Targets), "ring": ring, "cursor_before": fmt.Sprintf("2^%d - %d", k, ring+1)}
+			if pan {
+				d["panic"] = msg
+				L.Violation("round-robin-panics-at-a-high-lookup-count", d)
+				continue
+			}
+			for at := 0; at+ring <= len(seq); at++ {
+				got := map[*Target]int{}
+				for _, tg := range seq[at : at+ring] {
+					got[tg]++
+				}
+				bad := false
+				for tg, n := range slots {
+					if got[tg] != n {
+						bad = true
+					}
+				}
+				if bad {
+					d["window_starts_at_lookup"] = fmt.Sprintf("2^%d - %d", k, ring+1-at)
+					L.Violation("full-cycle-share-wrong-after-many-lookups", d)
+					break
+				}
+			}
+		}
+	}
 	L.End(true)
 }
